@@ -625,6 +625,20 @@ where
 
                     // all messages are dealt with
                     None => {
+                        // Requests can still sit in the read buffer when decoding stopped at the
+                        // pipeline limit earlier in this poll; nothing else would wake the
+                        // dispatcher for them, so decode them now that the queue is drained.
+                        if !this.read_buf.is_empty() {
+                            self.as_mut().poll_request(cx)?;
+
+                            let this = self.as_mut().project();
+                            if !this.state.is_none() || !this.messages.is_empty() {
+                                continue 'res;
+                            }
+                        }
+
+                        let this = self.as_mut().project();
+
                         // start keep-alive only if request payload is fully read/drained
                         this.flags.set(
                             Flags::KEEP_ALIVE,
